@@ -90,3 +90,51 @@ fn c23_write_bytes_frame() {
 
 // (heap reuse after reset is proved unbounded in the Verus unit c23_memory: grow_heap_by zeroes every newly
 // allocated byte whatever the buffer held; a Kani twin exhausted 24 GB on the 256-byte minimum allocation.)
+
+//@ props=C23,C31 tier=quick class=bounded(allocs=256,8,504) timeout=1500 -- instance reuse across a reallocation: allocate 256 bytes, dirty one (symbolic) byte, reset(), allocate 8, then 504 more (forces the buffer to be reallocated): every newly allocated byte (symbolic address) reads as zero
+#[kani::proof]
+#[kani::unwind(1030)]
+fn c23_heap_reuse_realloc_reads_zero() {
+    let mut m = MemoryInstance::new();
+    let sp: u64 = 0;
+    let mut hp: u64 = VM_MAX_RAM;
+    m.grow_heap_by(crate::constraints::reg_key::Reg::new(&sp), crate::constraints::reg_key::RegMut::new(&mut hp), 256).unwrap();
+    let off: usize = kani::any();
+    kani::assume(off < 256);
+    let d: u8 = kani::any();
+    let hl = m.heap.len();
+    m.heap[hl - 256 + off] = d;
+    m.reset();
+    hp = VM_MAX_RAM;
+    m.grow_heap_by(crate::constraints::reg_key::Reg::new(&sp), crate::constraints::reg_key::RegMut::new(&mut hp), 8).unwrap();
+    m.grow_heap_by(crate::constraints::reg_key::Reg::new(&sp), crate::constraints::reg_key::RegMut::new(&mut hp), 504).unwrap();
+    assert!(hp == VM_MAX_RAM - 512);
+    let a: u64 = kani::any();
+    kani::assume(a >= hp && a < VM_MAX_RAM);
+    let b = m.read_bytes::<_, 1>(a).unwrap()[0];
+    assert!(b == 0, "C23 newly allocated heap bytes read as zero even when the memory instance is reused");
+    core::mem::forget(m);
+}
+
+//@ props=C24 tier=quick class=proved-fin timeout=1200 -- OwnershipRegisters::new: the heap region ends at the CALLER's heap pointer, i.e. $hp saved in the innermost (last) call frame (two frames with symbolic saved $hp), or VM_MAX_RAM without a frame
+#[kani::proof]
+#[kani::unwind(70)]
+fn c24_ownership_registers_new() {
+    use crate::interpreter::executors::verif_kani_vm::{new_vm, R_HP, R_SP, R_SSP};
+    let mut vm = new_vm();
+    let (sp, ssp, hp): (Word, Word, Word) = (kani::any(), kani::any(), kani::any());
+    vm.registers[R_SP] = sp; vm.registers[R_SSP] = ssp; vm.registers[R_HP] = hp;
+    let o0 = OwnershipRegisters::new(&vm);
+    assert!(o0.sp == sp && o0.ssp == ssp && o0.hp == hp, "O-C24.1 current frame's stack and heap pointers");
+    assert!(o0.prev_hp == VM_MAX_RAM, "O-C24.1 without a call frame the heap region extends to the end of memory");
+    let (h1, h2): (Word, Word) = (kani::any(), kani::any());
+    let mut r1 = [0 as Word; VM_REGISTER_COUNT]; r1[R_HP] = h1;
+    let mut r2 = [0 as Word; VM_REGISTER_COUNT]; r2[R_HP] = h2;
+    let mut frames = Vec::with_capacity(2);
+    frames.push(crate::call::CallFrame::new(Default::default(), Default::default(), r1, 8, 0, 0).unwrap());
+    frames.push(crate::call::CallFrame::new(Default::default(), Default::default(), r2, 8, 0, 0).unwrap());
+    vm.frames = frames;
+    let o = OwnershipRegisters::new(&vm);
+    assert!(o.prev_hp == h2, "O-C24.1 heap ownership ends at the caller's heap pointer (innermost call frame)");
+    core::mem::forget(vm);
+}
